@@ -1,4 +1,5 @@
 import BiotiteModel.Proofs.C18Float
+import BiotiteModel.Proofs.C18Lazy
 import BiotiteModel.Gen.C18
 /-!
 # C18 — property theorems (MOL/SDF files; tables of the RDKit bridge)
@@ -404,6 +405,27 @@ theorem C18_sdf_file_roundtrip (rs : List SDRec) (d : Nat) (v : Version) (ls : L
       sdfDeserialize ls = .ok (rs.map fun r => (r.header.molName, ⟨r.header, r.mol.rt dc, r.md⟩)) :=
   sdf_file_roundtrip rs d v ls hne hok hnames h
 
+/-! ## Editing a parsed file -/
+
+/-- **Lazy parsing is unobservable.**  A file read from text keeps every record as text, parses a
+record, its header and its metadata on first access and caches the parsed object that is then
+edited in place.  For every history of edits — header fields, metadata, replacing the molecule,
+`file[new] = file[old]; del file[old]`, `del`, inserting a new record — started from any mixture
+of text and parsed parts, the outputs (incl. `KeyError` / `DeserializationError`) and the
+resulting content are those of the same history on a plain insertion-ordered mapping of fully
+parsed records.  (A model in which `record.header` returned the parsed header without caching it
+— seeded change C18-9 — does not satisfy this.) -/
+theorem C18_sdf_lazy_refines (f : LFile) (ops : List EditOp) :
+    specRun f.abs ops = (LFile.abs (lazyRun f ops).1, (lazyRun f ops).2) :=
+  run_refines ops f
+
+/-- The file as `SDFile.deserialize` leaves it (every record text) means: every record cut into
+header / CTAB / metadata by `recordParts` and each part parsed. -/
+theorem C18_sdf_lazy_initial (recs : List (Line × List Line)) :
+    (lazyOfRecords recs).abs = recs.map fun nr =>
+      (nr.1, ⟨parseH (recordParts nr.2).1, (recordParts nr.2).2.1, parseM (recordParts nr.2).2.2⟩) := by
+  simp [lazyOfRecords, LFile.abs, entryAbs, lrecOfLines, LRec.abs, forceH, forceM, List.map_map, Function.comp_def]
+
 /-! ## Coordinates after the float32 store -/
 
 /-- **"Coordinates to 0.0001", over ℚ.**  Let `x = q.val` be a float32 (`IsF32`: `m·2^e`,
@@ -506,5 +528,16 @@ example : (sdfSerialize exRecs 0 .v3000).bind sdfDeserialize
 example : IsF32 (Q.val ⟨true, 1, 32⟩) ∧ NearestF32 (Q.val ⟨true, 1, 32⟩) (Q.val ⟨true, 1, 32⟩) := by
   have h : IsF32 (Q.val ⟨true, 1, 32⟩) := ⟨-1, -5, by norm_num, by norm_num, by simp [Q.val]; norm_num⟩
   exact ⟨h, h, fun z _ => by simp⟩
+
+/-- a rename followed by a header edit on a file that is still text: the record moves to the end
+under its new name with the edited header, and the header is now parsed -/
+example :
+    let f := lazyOfRecords [("a".toList, (exHeader.serialize.toOption.getD []) ++ [mEnd]), ("b".toList, ["b".toList, [], [], mEnd])]
+    (lazyRun f [.rename "a".toList "c".toList, .editHeader "c".toList (fun h => { h with comments := "new".toList }),
+                .del "zz".toList]).2 = [.unit, .unit, .err .keyError] ∧
+    ((lazyRun f [.rename "a".toList "c".toList, .editHeader "c".toList (fun h => { h with comments := "new".toList })]).1.abs.map
+        fun kv => (kv.1, kv.2.header.map (·.molName), kv.2.header.map (·.comments)))
+      = [("b".toList, some "b".toList, some []), ("c".toList, some "c".toList, some "new".toList)] := by
+  decide
 
 end BiotiteModel.C18
